@@ -33,13 +33,13 @@ STAGES = {
             ('send-2x2-b1-transport', 'Session', cfg(BUDGET='1', CAPSETS='{{}}', CLASSES='{"wfail", "cwfail", "drop"}')),
             ('send-2x1-b2-transport', 'Session', cfg(MAXR='1', BUDGET='2', CAPSETS='{{}}', CLASSES='{"wfail", "cwfail", "p5"}')),
             ('send-2x1-b1-allrender', 'Session', cfg(MAXR='1', BUDGET='1', CAPSETS='{{}}',
-                                                      RENDERKINDS='{"fail0", "failMid", "failEOF", "failAtt", "failAttEOF"}')),
+                                                      RENDERKINDS='{"fail0", "failMid", "failEOF", "failAtt", "failAttEOF", "failSign"}')),
             ('dialandsend-2x1-b1', 'Session', cfg(OP='"DialAndSend"', MAXR='1', BUDGET='1', RENDERKINDS='{"failMid"}',
                                                   CAPSETS='{{}}')),
         ],
         'thorough': [
             ('send-3x2-b3-render', 'Session', cfg(N='3', BUDGET='3', RENDERKINDS='{"failMid"}', CAPSETS='{{}}')),
-            ('send-2x2-b2-allrender', 'Session', cfg(RENDERKINDS='{"fail0", "failMid", "failEOF", "failAtt", "failAttEOF"}',
+            ('send-2x2-b2-allrender', 'Session', cfg(RENDERKINDS='{"fail0", "failMid", "failEOF", "failAtt", "failAttEOF", "failSign"}',
                                                       CAPSETS='{{}}', CLASSES='{"t4", "p5", "drop", "x3"}')),
             ('dialandsend-2x2-b2', 'Session', cfg(OP='"DialAndSend"', RENDERKINDS='{"failMid"}', CAPSETS='{{}}')),
         ],
@@ -245,6 +245,8 @@ SENSITIVITY = {
 }
 
 TRACE_SPEC = ('TraceSession.tla', 'TraceSession.cfg')
+# the implicit-TLS stage needs ports 465 / 25 on a loopback address; where they cannot be bound its scenarios are skipped
+SELFTEST_OPTIONAL = {'command in clear under implicit TLS'}
 
 
 def facts(begin):
@@ -376,6 +378,16 @@ def mut_drop_rset(evs):
                 return evs[:j] + evs[j + 2:]
         i = _find(evs, lambda e: e['ev'] == 'cmd' and e['verb'] == 'RCPT', i + 1)
     return None
+
+
+def mut_stray_line(evs):
+    # a lone "." read as a command line after a rejected or finished command
+    i = _find(evs, lambda e: e['ev'] == 'cmd' and e['verb'] == 'RSET')
+    if i < 0:
+        return None
+    stray = dict(evs[i], verb='OTHER', line='.')
+    rep = dict(evs[i + 1], code=500, cls='p5')
+    return evs[:i] + [stray, rep] + evs[i:]
 
 
 def mut_extra_param(evs):
@@ -597,6 +609,7 @@ SELFTESTS = {
             ('hide render error', mut_hide_render_error, 'C03_RenderFailReported')],
     'C04': [('drop RSET after rejected RCPT', mut_drop_rset, 'C04_MailOutsideTxn'),
             ('unadvertised parameter', mut_extra_param, 'C04_ParamsAdvertised'),
+            ('stray line outside DATA', mut_stray_line, 'C04_KnownCommand'),
             ('DATA after rejected RCPT', mut_data_after_reject, 'C04_DataAllAccepted'),
             ('bytes before greeting', mut_early, 'C04_NothingBeforeGreeting'),
             ('misattributed reply code', mut_wrong_code, 'C04_ReplyAttribution')],
